@@ -381,7 +381,7 @@ CHECKS["C14"] = {
     "technique": "stateless deviation-bounded exploration of segmentation over an exhaustively generated multipart body space with a ground-truth oracle, on the real streaming parser",
     "level_text": "gen_mpart emits bodies together with the parts they encode: boundaries {BB, b, -x-}, 0-2 parts (3 in thorough), names {a, a\"b (escaped), empty, a\\ (trailing backslash), \\a\\\\b}, file name {none, f.txt, C:\\d\\}, "
                   "optional part Content-Type, content = every string of length <= 3 over {CR, LF, -, x} plus near-boundary texts (contents that would contain a real delimiter are "
-                  "excluded as not well-formed), preamble/epilogue on/off, CRLF or LF line ends (27.9k bodies). Each body is fed to htp_mpartp_parse()/finalize() whole, with every single "
+                  "excluded as not well-formed), preamble on/off, epilogue {none, text, one complete line, text after an empty line}, CRLF or LF line ends. Each body is fed to htp_mpartp_parse()/finalize() whole, with every single "
                   "cut, every pair of cuts within 8 bytes (quick) / all pairs and all triples on bodies <= 70 bytes (thorough), and 1-/2-byte delivery; every chunk lives in an exact-size "
                   "heap block. Oracle: reported TEXT/FILE parts (type, name, file name, content type, value or FILE_DATA bytes, order) equal the generator structure byte for byte, and flags "
                   "and parts are identical for every chunking. Binding slice: two-part bodies through a real request, every cut inside the body, text parts == tx->request_params.",
